@@ -61,7 +61,7 @@ func (s *gscope) visible(typ string) []string {
 
 func scalarType(t string) bool {
 	// function values have no dynamic type in zygo, so re-binding them is never refused
-	return t == "int" || t == "bool" || t == "str" || t == "float" || t == "fn0" || t == "fn1" || t == "fn2"
+	return t == "int" || t == "bool" || t == "str" || t == "float" || t == "fn0" || t == "fn1" || t == "fn2" || t == "ffn0"
 }
 
 func sortStrings(a []string) {
@@ -350,6 +350,10 @@ func (g *gen) leaf(typ string) *Node {
 		return g.fnLiteral([]string{"int"}, "int")
 	case "fn2":
 		return g.fnLiteral([]string{"int", "int"}, "int")
+	case "ffn0":
+		// a function returning a function: the innermost body is two function levels down
+		g.feat("fn-returning-fn")
+		return g.fnLiteral(nil, "fn0")
 	}
 	return NNil()
 }
@@ -385,7 +389,7 @@ func (g *gen) exprInner(typ string, depth int) *Node {
 		for i := 0; i < k; i++ {
 			types[i] = rapid.SampledFrom([]string{"int", "int", "bool", "arr"}).Draw(g.t, "bt")
 			if g.cfg.ScopeOnly {
-				types[i] = rapid.SampledFrom([]string{"int", "int", "fn0"}).Draw(g.t, "sbt")
+				types[i] = rapid.SampledFrom([]string{"int", "int", "int", "fn0", "fn0", "ffn0"}).Draw(g.t, "sbt")
 			}
 		}
 		g.push()
@@ -515,9 +519,18 @@ func (g *gen) exprInner(typ string, depth int) *Node {
 			return n
 		}
 		return g.leaf("list")
-	case "fn0", "fn1", "fn2":
+	case "fn0", "fn1", "fn2", "ffn0":
 		if vs := g.scope.visible(typ); len(vs) > 0 && g.chance(2, "fnvar") {
 			return NVar(rapid.SampledFrom(vs).Draw(g.t, "fv"))
+		}
+		if typ == "ffn0" {
+			return g.leaf("ffn0")
+		}
+		if typ == "fn0" && g.cfg.ScopeOnly {
+			if vs := g.scope.visible("ffn0"); len(vs) > 0 && g.chance(3, "ffcall") {
+				g.feat("call-of-fn-returning-fn")
+				return NCall(NVar(rapid.SampledFrom(vs).Draw(g.t, "ffv")))
+			}
 		}
 		if typ == "fn0" {
 			return g.fnLiteral(nil, "int")
@@ -763,7 +776,7 @@ func (g *gen) stmt(d int) *Node {
 		// def of a new (or same-typed) name in the innermost scope
 		typ := rapid.SampledFrom([]string{"int", "int", "int", "bool", "str", "arr", "list", "hash", "fn1", "float"}).Draw(g.t, "dt")
 		if g.cfg.ScopeOnly {
-			typ = rapid.SampledFrom([]string{"int", "int", "fn1", "fn0", "fn0"}).Draw(g.t, "dts")
+			typ = rapid.SampledFrom([]string{"int", "int", "int", "fn1", "fn0", "fn0", "ffn0"}).Draw(g.t, "dts")
 		}
 		if g.scope.isLoop && !scalarType(typ) {
 			// re-executed on every iteration with content-dependent dynamic types
@@ -915,7 +928,7 @@ func (g *gen) defnRet(d int, forceRet string) *Node {
 	n := &Node{K: "defn", S: name}
 	sig := &fnsig{Ret: rapid.SampledFrom([]string{"int", "int", "int", "bool", "arr"}).Draw(g.t, "ret")}
 	if g.cfg.ScopeOnly {
-		sig.Ret = rapid.SampledFrom([]string{"int", "int", "fn0", "fn0", "fn1"}).Draw(g.t, "sret")
+		sig.Ret = rapid.SampledFrom([]string{"int", "int", "fn0", "fn0", "fn1", "ffn0"}).Draw(g.t, "sret")
 	}
 	if forceRet != "" {
 		sig.Ret = forceRet
@@ -1025,7 +1038,7 @@ func (g *gen) program() []*Node {
 		// separate per activation
 		var insts [][2]string
 		for k := 0; k < 1+g.pick(3, "nmakers"); k++ {
-			ret := rapid.SampledFrom([]string{"fn0", "fn0", "fn1"}).Draw(g.t, "mret")
+			ret := rapid.SampledFrom([]string{"fn0", "fn0", "fn1", "ffn0", "ffn0"}).Draw(g.t, "mret")
 			forms = append(forms, g.defnRet(0, ret))
 			for j := 0; j < 1+g.pick(2, "ninst"); j++ {
 				if c := g.callNamed(ret, 1); c != nil {
@@ -1033,6 +1046,12 @@ func (g *gen) program() []*Node {
 					g.scope.vars[nm] = gvar{typ: ret}
 					forms = append(forms, NDef(nm, c))
 					insts = append(insts, [2]string{nm, ret})
+					if ret == "ffn0" && g.chance(2, "unwrap") {
+						nm2 := g.freshName("fn0", g.cfg.VarNames)
+						g.scope.vars[nm2] = gvar{typ: "fn0"}
+						forms = append(forms, NDef(nm2, NCall(NVar(nm))))
+						insts = append(insts, [2]string{nm2, "fn0"})
+					}
 				}
 			}
 		}
@@ -1042,6 +1061,10 @@ func (g *gen) program() []*Node {
 				call := NCall(NVar(in[0]))
 				if in[1] == "fn1" {
 					call.Kids = append(call.Kids, g.intLit())
+				}
+				if in[1] == "ffn0" {
+					call = NCall(call)
+					g.feat("instance-of-fn-returning-fn-called")
 				}
 				g.feat("instance-called-after-factory-returned")
 				forms = append(forms, NTrace(call))
